@@ -14,6 +14,7 @@ import (
 	"runtime"
 	"runtime/debug"
 	"sort"
+	"strconv"
 	"strings"
 	"sync"
 	"sync/atomic"
@@ -41,6 +42,51 @@ type Ctx struct {
 	limit    int // BFS: stop offering steps once this many choices were made (<0 = no limit)
 	stateKey string
 	hasKey   bool
+
+	shardI, shardK int      // sharded exploration: this process owns the executions with key % shardK == shardI
+	ckpt           *os.File // sharded exploration: the execution in flight is recorded here (crash containment)
+}
+
+// Shard is called by a body after its last choice point with a key computed
+// from the choices.  Under a sharded exploration (several processes walking
+// the same choice tree) the execution continues only in the process that owns
+// the key; elsewhere it ends here (the choice points made so far still
+// generate the same children in every process).
+func (c *Ctx) Shard(key uint64) {
+	if c.shardK > 1 && int(key%uint64(c.shardK)) != c.shardI {
+		panic(abortExec{"shard"})
+	}
+}
+
+// Checkpoint records the choice sequence made so far as "in flight", so that
+// the parent process can name the input if this process dies (stack overflow
+// and out-of-memory are fatal in Go and cannot be recovered).
+func (c *Ctx) Checkpoint() {
+	if c.ckpt == nil {
+		return
+	}
+	var buf [4096]byte
+	b := strconv.AppendInt(buf[:0], int64(len(c.choices)), 10)
+	for _, x := range c.choices {
+		b = append(b, ' ')
+		b = strconv.AppendInt(b, int64(x), 10)
+		if len(b) > 4000 {
+			break
+		}
+	}
+	b = append(b, '\n')
+	c.ckpt.WriteAt(b[:len(b)], 0)
+}
+
+// KeyOf mixes integers into a shard key.
+func KeyOf(vals ...int) uint64 {
+	h := uint64(0x9E3779B97F4A7C15)
+	for _, v := range vals {
+		h ^= uint64(v) + 0x9E3779B97F4A7C15 + (h << 6) + (h >> 2)
+		h *= 0xD1B54A32D192ED03
+		h ^= h >> 31
+	}
+	return h
 }
 
 // More reports whether the body should take another step.  Under the
@@ -169,6 +215,9 @@ type Config struct {
 	MaxFails  int                 // stop after that many distinct failure classes (default 25)
 	PanicSig  func(string) string // optional: turn a panic stack into a signature
 	NoRecover bool
+	// sharded exploration (see Ctx.Shard)
+	ShardIndex, ShardCount int
+	Checkpoint             *os.File
 }
 
 // Violation is a distinct failure class with the first execution that showed it.
@@ -190,6 +239,8 @@ type Result struct {
 	ChoicePoints     int64
 	MaxDepth         int
 	DistinctOutcomes int
+	OutcomeSet       []uint64 `json:",omitempty"` // sharded exploration: the outcome hashes, for merging
+	NontrivSet       []uint64 `json:",omitempty"`
 	Nontrivial       int64 // executions flagged non-trivial
 	DistinctNontriv  int   // distinct outcomes among non-trivial executions
 	Exhaustive       bool
@@ -260,6 +311,14 @@ func Run(cfg Config, body func(*Ctx)) *Result {
 		DistinctNontriv: len(e.ntOut), Exhaustive: e.capHit == "" && len(e.herr) == 0,
 		CapHit: e.capHit, Tags: e.tags, Samples: e.samples, HarnessErrors: e.herr,
 		Wall: time.Since(start)}
+	if cfg.ShardCount > 1 {
+		for h := range e.outcomes {
+			r.OutcomeSet = append(r.OutcomeSet, h)
+		}
+		for h := range e.ntOut {
+			r.NontrivSet = append(r.NontrivSet, h)
+		}
+	}
 	for _, v := range e.viol {
 		r.Violations = append(r.Violations, v)
 	}
@@ -340,12 +399,19 @@ func Exec(body func(*Ctx), prefix []int, labels bool) (c *Ctx, panicMsg string) 
 
 // ExecLimit is Exec with a step limit (see Ctx.More).
 func ExecLimit(body func(*Ctx), prefix []int, labels bool, limit int) (c *Ctx, panicMsg string) {
+	return execCfg(body, prefix, labels, limit, nil)
+}
+
+func execCfg(body func(*Ctx), prefix []int, labels bool, limit int, cfg *Config) (c *Ctx, panicMsg string) {
 	c = &Ctx{prefix: prefix, wantLab: labels, limit: limit}
+	if cfg != nil {
+		c.shardI, c.shardK, c.ckpt = cfg.ShardIndex, cfg.ShardCount, cfg.Checkpoint
+	}
 	func() {
 		defer func() {
 			if r := recover(); r != nil {
 				if a, ok := r.(abortExec); ok {
-					if strings.HasPrefix(a.why, "skip:") {
+					if strings.HasPrefix(a.why, "skip:") || a.why == "shard" {
 						c.fails = nil
 						c.hasOutcome = false
 						c.tags = append(c.tags, a.why)
@@ -452,7 +518,7 @@ func (e *explorer) runOne(t task) []task {
 		e.cond.Broadcast()
 		return nil
 	}
-	c, pmsg := Exec(e.body, t.prefix, false)
+	c, pmsg := execCfg(e.body, t.prefix, false, -1, &e.cfg)
 	if c.replayErr != "" || len(c.choices) < len(t.prefix) {
 		e.mu.Lock()
 		e.herr = append(e.herr, fmt.Sprintf("%s: nondeterministic harness: prefix %v: %s (consumed %d of %d)", e.cfg.Name, t.prefix, c.replayErr, len(c.choices), len(t.prefix)))
@@ -473,9 +539,18 @@ func (e *explorer) runOne(t task) []task {
 		c.fails = append(c.fails, Failure{Clause: "panic", Sig: sig, Msg: pmsg})
 	}
 	skipped := false
-	for _, tg := range c.tags {
+	for i, tg := range c.tags {
 		if strings.HasPrefix(tg, "skip:") {
 			skipped = true
+		}
+		if tg == "shard" {
+			// the execution belongs to another process: it only contributes its choice points
+			skipped = true
+			e.execs.Add(-1)
+			e.skipped.Add(-1)
+			c.tags = append(c.tags[:i:i], c.tags[i+1:]...)
+			c.nontrivial = false
+			break
 		}
 	}
 	if skipped {
@@ -499,7 +574,11 @@ func (e *explorer) runOne(t task) []task {
 		e.tags[tg]++
 	}
 	for k, n := range c.counts {
-		e.tags[k] += n
+		if strings.HasPrefix(k, "max:") {
+			e.tags[k] = max(e.tags[k], n)
+		} else {
+			e.tags[k] += n
+		}
 	}
 	if !skipped && c.sample != nil {
 		// reservoir of NSamples, rotated by seed
